@@ -806,50 +806,77 @@ func depRehome(r *engine.Run, rule string) {
 func domRootInstalled(r *engine.Run, rule string) {
 	n := 0
 	for _, name := range []string{"Insert", "Delete"} {
-		f := r.Fn(rule, pkgUtil, "MerklePatriciaTrie", name)
-		if f == nil {
+		top := r.Fn(rule, pkgUtil, "MerklePatriciaTrie", name)
+		if top == nil {
 			continue
 		}
-		var walks, sets []*ssa.Call
-		engine.Instrs(f, func(in ssa.Instruction) {
-			c, ok := in.(*ssa.Call)
-			if !ok {
-				return
-			}
-			sc := c.Call.StaticCallee()
-			if sc == nil || recvNamed(sc) != "MerklePatriciaTrie" {
-				return
-			}
-			switch sc.Name() {
-			case "insert", "insertLeaf", "delete":
-				walks = append(walks, c)
-			case "setRoot":
-				sets = append(sets, c)
-			}
-		})
-		o := ord{}
-		for _, ret := range engine.Returns(f) {
-			if len(ret.Results) != 2 || !nilConst(resultValue(ret, 1)) {
-				continue
-			}
-			walked := false
-			for _, w := range walks {
-				if engine.ReachableAfter(w, ret) {
-					walked = true
+		// the operation and the helpers that exist only to carry part of it
+		group := opGroup(r, top)
+		var callsWalk func(g *ssa.Function, depth int) bool
+		callsWalk = func(g *ssa.Function, depth int) bool {
+			res := false
+			engine.Instrs(g, func(in ssa.Instruction) {
+				if c, ok := in.(*ssa.Call); ok {
+					if sc := c.Call.StaticCallee(); sc != nil && recvNamed(sc) == "MerklePatriciaTrie" {
+						switch sc.Name() {
+						case "insert", "insertLeaf", "delete":
+							res = true
+						default:
+							if depth < 2 && sc != g && inGroup(group, sc) && callsWalk(sc, depth+1) {
+								res = true
+							}
+						}
+					}
 				}
-			}
-			if !walked {
-				continue
-			}
-			n++
-			good := false
-			for _, s := range sets {
-				if engine.InstrDominates(s, ret) {
-					good = true
+			})
+			return res
+		}
+		for _, f := range group {
+			var walks, sets []*ssa.Call
+			engine.Instrs(f, func(in ssa.Instruction) {
+				c, ok := in.(*ssa.Call)
+				if !ok {
+					return
 				}
+				sc := c.Call.StaticCallee()
+				if sc == nil || recvNamed(sc) != "MerklePatriciaTrie" {
+					return
+				}
+				switch sc.Name() {
+				case "insert", "insertLeaf", "delete":
+					walks = append(walks, c)
+				case "setRoot":
+					sets = append(sets, c)
+				default:
+					if sc != f && inGroup(group, sc) && callsWalk(sc, 0) {
+						walks = append(walks, c)
+					}
+				}
+			})
+			o := ord{}
+			for _, ret := range engine.Returns(f) {
+				if len(ret.Results) != 2 || !nilConst(resultValue(ret, 1)) {
+					continue
+				}
+				walked := false
+				for _, w := range walks {
+					if engine.ReachableAfter(w, ret) {
+						walked = true
+					}
+				}
+				if !walked {
+					continue
+				}
+				n++
+				good := false
+				for _, s := range sets {
+					if engine.InstrDominates(s, ret) {
+						good = true
+					}
+				}
+				r.Check(good, rule, o.next(fn(f)+"|success installs the root"), r.P.Pos(ret.Pos()), "setRoot dominates the success return",
+					"the operation rebuilds the trie and reports success without installing the new root: the trie keeps answering from the old root")
 			}
-			r.Check(good, rule, o.next(fn(f)+"|success installs the root"), r.P.Pos(ret.Pos()), "setRoot dominates the success return",
-				"the operation rebuilds the trie and reports success without installing the new root: the trie keeps answering from the old root")
 		}
 	}
 	if n < 2 {
